@@ -751,6 +751,34 @@ example :
      | _ => (0, 0, 0, 0, 0, 0)) = (3, 7, 2, 3, 5, 1) := by decide
 
 
+open PyPhysim.Generated.C05Grid in
+/-- **The regenerated index computations are the model's.**  `Generated/C05Grid.lean` is
+    re-emitted from the AST of `SimulationParameters.get_unpacked_params_list` and
+    `get_num_unpacked_variations` (loops summarised as maps).  For every set of unpacked
+    parameters: the list of combinations is `combos` (product over the name-SORTED
+    parameters, last name fastest — so `unpack_order` holds of it),
+    element `i` pairs the sorted names with combination `i` and carries `_unpack_index = i`,
+    and the number of variations — a product of the lengths taken in the iteration order of a
+    Python set, i.e. in ANY order `lens` — is the model's `prod (dimsOf ps)`. -/
+theorem generated_grid_matches_model {V : Type} (ps : List (Param V)) :
+    unpackedValues ps = combos ps ∧
+    (∀ i, variation ps i = ((combos ps)[i]?).map (fun c => (((sortParams ps).map (·.1)).zip c, i))) ∧
+    (∀ lens : List Nat, lens.Perm (dimsOf ps) → numVariations lens = prod (dimsOf ps)) :=
+  ⟨gen_unpackedValues ps, gen_variation ps,
+   fun lens h => (gen_numVariations lens).trans (prod_perm h)⟩
+
+open PyPhysim.Generated.C05Grid in
+/-- three unsorted names: element 3 of the regenerated list -/
+example :
+    variation [("b", [1, 2]), ("a", [5, 6, 7]), ("B", [9])] 3
+      = some ([("B", 9), ("a", 6), ("b", 2)], 3) ∧ numVariations [2, 3, 1] = 6 := by
+  have hs : sortParams [("b", [1, 2]), ("a", [5, 6, 7]), ("B", [9])]
+      = [("B", [9]), ("a", [5, 6, 7]), ("b", [1, 2])] := by
+    simp [sortParams, List.mergeSort, List.MergeSort.Internal.splitInTwo]
+  refine ⟨?_, by decide⟩
+  simp only [variation, unpackedValues, unpackedNames, hs]
+  decide
+
 /-- a variation with a skip in the first repetition, a stop rule that fires before
     the limit (`sum < 5`), and a left-over stream -/
 example :
